@@ -20,9 +20,14 @@ def check_mask_case(case, acc):
     n, coding, mc = case['len'], case['coding'], case['mask_char']
     if coding == 'digits':
         pan = isogen.digits(n, case.get('seed', 0) + n)
+    elif coding == 'ctrl':
+        # digits with one unusual character (line feed, carriage return, NUL, tab, NBSP, line separator ...) at a
+        # chosen position
+        pan = isogen.digits(n, case.get('seed', 0) + n)
+        pan = pan[:case['at']] + case['ch'] + pan[case['at'] + 1:]
     else:
         pan = isogen.text(n, case.get('seed', 0) + n, [c for c in PRINTABLE if c != mc])
-    acc.case(('mask', n, coding, mc), nontrivial=True, outcome='mask')
+    acc.case(('mask', n, coding, mc, case.get('at'), case.get('ch')), nontrivial=True, outcome='mask')
     try:
         out = card.mask(pan) if mc is None else card.mask(pan, mc)
     except Exception as ex:
@@ -52,6 +57,8 @@ def check_decode_case(case, acc):
     base = isogen.get_cfg(case['cfg'])
     enc = case['enc']
     pan = isogen.digits(case['len'], case.get('seed', 0) + case['bit'])
+    if case.get('lf') is not None:
+        pan = pan[:case['lf']] + '\n' + pan[case['lf'] + 1:]
     msg = {'MTI': '1240', 'DE%d' % case['bit']: pan}
     if case['neighbours']:
         bits = isogen.bits_of(case['cfg'])
@@ -63,7 +70,8 @@ def check_decode_case(case, acc):
             if cls in ('fixed', 'num', 'var', 'date'):
                 kind, param = isogen.default_variant(base[str(nb)])
                 msg['DE%d' % nb] = isogen.build_value(base[str(nb)], kind, param, enc, 0, nb)
-    acc.case(('dec', case['cfg'], case['bit'], case['proc'], case['len'], enc, case['neighbours'], case['via']),
+    acc.case(('dec', case['cfg'], case['bit'], case['proc'], case['len'], enc, case['neighbours'], case['via'],
+              case.get('lf')),
              nontrivial=True, outcome=case['proc'] + ':' + case['via'])
     try:
         data, _ = iso_ref.encode(msg, cfg, enc, False)
@@ -141,6 +149,13 @@ def tasks(tier, seed):
         for coding in ('digits', 'text'):
             for mc in [None] + PRINTABLE:
                 mask_cases.append({'kind': 'mask', 'len': n, 'coding': coding, 'mask_char': mc, 'seed': seed})
+    for n in range(10, 41):
+        for ch in ('\n', '\r', '\x00', '\t', '\xa0', '\u2028', '\x85'):
+            for at in range(n):
+                if ch != '\n' and at not in (0, 5, 6, n - 5, n - 4, n - 1, n // 2):
+                    continue
+                mask_cases.append({'kind': 'mask', 'len': n, 'coding': 'ctrl', 'mask_char': None, 'seed': seed,
+                                   'at': at, 'ch': ch})
     for n in (41, 64, 99, 100, 255, 999, 1000):
         mask_cases.append({'kind': 'mask', 'len': n, 'coding': 'digits', 'mask_char': None, 'seed': seed})
     for ch in core.chunks(mask_cases, 8):
@@ -163,6 +178,10 @@ def tasks(tier, seed):
                                     continue
                                 dec.append({'kind': 'dec', 'cfg': cfgname, 'bit': bit, 'proc': proc, 'len': n,
                                             'enc': enc, 'neighbours': nb, 'via': via, 'seed': seed})
+                                if n in (16, 19) and via == 'loads' and not nb:
+                                    for lf in (0, 7, n - 1):
+                                        dec.append({'kind': 'dec', 'cfg': cfgname, 'bit': bit, 'proc': proc, 'len': n,
+                                                    'enc': enc, 'neighbours': nb, 'via': via, 'seed': seed, 'lf': lf})
     for ch in core.chunks(dec, 48):
         ts.append({'cases': ch})
     inplace = []
@@ -203,7 +222,8 @@ def replay_into(case, acc):
 def describe(tier, seed):
     return {
         'rule': 'mask(): every length 10..40 (+ 41, 64, 99, 100, 255, 999, 1000) x {digits, arbitrary printable text} x '
-                '{default, each of the 95 printable mask characters}: same length, first six and last four kept, '
+                '{default, each of the 95 printable mask characters}, plus digits with a line feed at every position and '
+                'CR / NUL / TAB / NBSP / U+2028 / U+0085 at the edges of the three parts: same length, first six and last four kept, '
                 'every middle position is the mask character. Decoding: every LLVAR/LLLVAR element of the packaged '
                 'and %s generated configuration(s) re-configured with PAN and with PAN-PREFIX x PAN lengths 10..19, 99 '
                 '(100, 999 on LLLVAR) x {latin_1, cp500} x {alone, with both neighbour elements} through loads and '
